@@ -15,7 +15,12 @@ mod seal {
     use crate::server::VersionId;
 
     /// Seal `payload` for `version_id` with the key derived from `secret` and `salt`.
-    pub fn seal(secret: &[u8], salt: &[u8], version_id: VersionId, payload: Vec<u8>) -> Result<Vec<u8>> {
+    pub fn seal(
+        secret: &[u8],
+        salt: &[u8],
+        version_id: VersionId,
+        payload: Vec<u8>,
+    ) -> Result<Vec<u8>> {
         let c = Cryptor::new(salt, &secret.to_vec().into())?;
         Ok(c.seal(Unsealed {
             version_id,
@@ -25,7 +30,12 @@ mod seal {
     }
 
     /// Open a sealed value that is claimed to belong to `version_id`.
-    pub fn unseal(secret: &[u8], salt: &[u8], version_id: VersionId, sealed: Vec<u8>) -> Result<Vec<u8>> {
+    pub fn unseal(
+        secret: &[u8],
+        salt: &[u8],
+        version_id: VersionId,
+        sealed: Vec<u8>,
+    ) -> Result<Vec<u8>> {
         let c = Cryptor::new(salt, &secret.to_vec().into())?;
         Ok(c.unseal(Sealed {
             version_id,
